@@ -54,6 +54,8 @@ def configs(tier, seed):
         cfgs.append(dict(backend=b, backoff='never', n=2, messages=1, d=0, dd=3, menu=dict(MENU, reversed_maps=True)))
         cfgs.append(dict(backend=b, backoff='r0x2', n=2, messages=1, d=0, dd=3, menu=MENU, unicode_replies=True, senders={'0': 's\u00e9nder@x'}, body8=True))
         cfgs.append(dict(backend=b, backoff='r0x2', n=2, messages=1, d=0, dd=3, menu=MENU, unicode_rcpts=True))
+        # the same failure reply written with and without its (default) enhanced status code: it reads the same, so it is one reply
+        cfgs.append(dict(backend=b, backoff='r0x2', n=3, messages=1, d=0, dd=2, menu=dict(MENU, boom=False), mixed_spelling=True))
         # bounded store pool: building and enqueueing a bounce needs storage slots of its own
         cfgs.append(dict(backend=b, backoff='r0x2', n=2, messages=1, d=1, dd=3, menu=MENU, store_pool=1))
         cfgs.append(dict(backend=b, backoff='never', n=2, messages=2, d=1, dd=2, menu=MENU, store_pool=2))
